@@ -75,7 +75,10 @@ def to_f32(t):
 
 
 def run_wavesim(c, delays, sims, caps, reuse, strip, s0, s1, s2, extra, tcap=None, a_ctrl=None, cuda=False, prop_sims=None,
-                simctl=None, seed=1):
+                simctl=None, seed=1, warm=None):
+    """warm = (s0, s1, s2, extra) of an EARLIER round simulated on the same simulator object (assign, direct waveform writes,
+    propagate, capture) before the round proper: a simulator is allocated once and used for many batches, so nothing of an earlier
+    round may survive into the next one.  w.abuf_warm is the accumulator content after the earlier round."""
     from kyupy import wave_sim
     cls = wave_sim.WaveSimCuda if cuda else wave_sim.WaveSim
     with contextlib.redirect_stdout(io.StringIO()):
@@ -84,6 +87,18 @@ def run_wavesim(c, delays, sims, caps, reuse, strip, s0, s1, s2, extra, tcap=Non
             w.simctl_int[...] = simctl
         else:
             w.simctl_int[1] = 0 if delays.ndim == 4 and len(delays) > 1 else w.simctl_int[1]
+        w.abuf_warm = None
+        if warm is not None:
+            w.s[0], w.s[1], w.s[2] = warm[0], warm[1], warm[2]
+            w.s_to_c()
+            for (p, lane), wf in warm[3].items():
+                loc = w.c_locs[w.ppi_offset + p]
+                if loc >= 0:
+                    for j, t in enumerate(wf):
+                        w.c[loc + j, lane] = to_f32(t)
+            w.c_prop(seed=seed)
+            w.c_to_s(time=wave_sim.TMAX)
+            w.abuf_warm = np.array(w.abuf).copy() if w.abuf_len > 0 else None
         w.s[0], w.s[1], w.s[2] = s0, s1, s2
         w.s_to_c()
         for (p, lane), wf in extra.items():
